@@ -160,6 +160,14 @@ psRes_t psVerifySig(psPool_t *pool,
         break;
 #  ifdef USE_ED25519
     case PS_ED25519:
+        if (sigLen != 64)
+        {
+            /* psEd25519Verify reads exactly 64 bytes */
+            psTraceCrypto("Ed25519 signature is not 64 bytes long\n");
+            rc = PS_VERIFICATION_FAILED;
+            *verifyResult = PS_FALSE;
+            goto out;
+        }
         rc = psEd25519Verify(sig,
                 msgIn,
                 msgInLen,
